@@ -17,10 +17,13 @@ func init() {
 // C12 — fragments are grouped into segments faithfully and indexes tile the media (narrow clauses).
 func checkC12(c *Ctx, r *Report) {
 	r.Explanation = "Narrow clauses: (S-MEMBER) Size, Encode and EncodeSW of File and MediaSegment visit the same members in the same order under the same guards (styp, every sidx, fragments, mfra); " +
-		"(T-ORDER) when deciding whether a moof starts a new segment, the start-on-moof option is consulted only after the delimiters present in the file (styp handled by the caller, top-level sidx, tfra); " +
+		"(O-POS) start positions in DecodeFile/DecodeFileSR follow the input position, and no box decoder stores a value computed from the re-calculated Size() of the box it is building (the sidx anchor point, which segment detection compares moof positions with, comes from the header read); (O-DELIM) in File.AddChild every box that can begin a fragment (emsg, moof) calls startSegmentIfNeeded under the type switch only; (T-ORDER) when deciding whether a moof starts a new segment, the start-on-moof option is consulted only after the delimiters present in the file (styp handled by the caller, top-level sidx, tfra); " +
 		"(DEP) each sidx reference's size depends on MediaSegment.Size() of that segment and its duration on the summed Sample.Dur of the reference track, the earliest presentation time on tfdt; " +
 		"(E9) Sidx/Sidxs of File and MediaSegment are updated together; (W-FIRSTTREX) MvexBox.Trex, the first trex box, is read only by a frozen list of single-track functions; everything else looks the trex up by track id; (O-PRE) durations are summed after tfhd/trex defaults are applied, and the add-sidx tool removes boxes before the index sizes are computed. Does not decide the partition for a given delimiter mix or anchor-point arithmetic."
 	wireAssumptions(r)
+	ruleDelimitersConsulted(c, r)
+	ruleStartPosFromInput(c, r)
+	ruleDecoderNoSizeStore(c, r)
 	m := compositeVerdicts(c)
 	for _, t := range []string{"File", "MediaSegment", "Fragment"} {
 		reportMember(r, "S-MEMBER-size", t, m[t], m[t].se, "Size() and EncodeSW of the composite visit different members")
